@@ -14,7 +14,8 @@ FUNCTIONS = ["osyris.core.array.Array.to", "osyris.core.vector.Vector.to", "osyr
 ASSUMPTIONS = ["catalogue values are compared with IAU 2015 / CODATA 2018 values at relative tolerance 1e-3",
                "conversions are compared with the independent table at relative tolerance 1e-9",
                "HOME points at a fresh directory, so the configuration checked is /repo's defaults.py"]
-BOUNDS = {"quick": {"values": "all symbolic", "unit pairs": "all ordered pairs of 3 units per family + chains + incompatible",
+BOUNDS = {"quick": {"histories": "to() twice with an in-place change of the source or of the first result in between (7 kinds x 4 unit pairs, Array and Vector)",
+                    "values": "all symbolic", "unit pairs": "all ordered pairs of 3 units per family + chains + incompatible",
                     "kinds": "Array 0-d/(2,), Vector nvec 1..3", "dtypes": "f64, f32, i64", "catalogue": "all 9 defined units, all aliases"},
           "thorough": {"values": "all symbolic", "unit pairs": "all ordered pairs of all units per family", "kinds": "as quick + (2,2)",
                        "dtypes": "f64,f32,i64,i32", "catalogue": "as quick"}}
@@ -50,6 +51,12 @@ def configs(tier):
                 out.append(dict(kind="array", ua=ua, ub=ub, dt=dt, shape=shape))
                 for nvec in (1, 2, 3):
                     out.append(dict(kind="vector", nvec=nvec, ua=ua, ub=ub, dt=dt, shape=shape))
+    # repeated conversions with an in-place change of the source or of the earlier result in between (a conversion result
+    # remembered inside the Array must not be observable)
+    for ua, ub in [("m", "cm"), ("cm", "cm"), ("M_sun", "g"), ("km/m", "dimensionless")]:
+        for mut in ("none", "res_imul", "res_set", "src_imul", "src_set", "src_iadd", "src_unit"):
+            for kd in ("repeat", "repeat-vector"):
+                out.append(dict(kind=kd, ua=ua, ub=ub, dt="float64", shape=[2], mut=mut))
     for ua, ub in INCOMPAT:
         out.append(dict(kind="array", ua=ua, ub=ub, dt="float64", shape=[2]))
         out.append(dict(kind="vector", nvec=2, ua=ua, ub=ub, dt="float64", shape=[2]))
@@ -187,6 +194,40 @@ def body(m, cfg):
             return
         for (cn, c), s in zip(v._xyz.items(), snaps):
             _to_checks(m, c, getattr(r, cn), ua, ub, f"{tag}:{cn}", s)
+    elif kind in ("repeat", "repeat-vector"):
+        mut = cfg["mut"]
+        tag += ":" + mut
+        if kind == "repeat":
+            a = Array(m.array("a", shape, dt), unit=ua)
+            r1 = a.to(ub)
+            src, res = a, r1
+        else:
+            v = Vector(*[m.array("xyz"[i], shape, dt) for i in range(2)], unit=ua)
+            r1 = v.to(ub)
+            a, src, res = v.y, v, r1
+            r1 = r1.y
+        snap0 = C.snapshot(m, a)
+        if mut == "res_imul":
+            res *= 3.0
+        elif mut == "res_set":
+            r1.values[0] = m.real("v")
+        if mut.startswith("res") and fa != fb:         # (with equal units to() may return the source itself)
+            m.require(C.unchanged(m, a, snap0), "changing the result of to() does not change the source", key=f"source-modified:{tag}")
+        if mut == "src_imul":
+            src *= 3.0
+        elif mut == "src_iadd":
+            src += Array(m.array("d", shape, dt), unit=ua)
+        elif mut == "src_set":
+            a.values[0] = m.real("v")
+        elif mut == "src_unit":
+            ua = {"m": "km", "cm": "m", "M_sun": "kg", "km/m": "percent"}[ua]
+            src.unit = osyris.units(ua)
+        ua = a.unit                                    # (an in-place product may relabel the source)
+        snap = C.snapshot(m, a)
+        r2 = src.to(ub)
+        if kind == "repeat-vector":
+            r2 = r2.y
+        _to_checks(m, a, r2, ua, ub, tag, snap)
     elif kind == "chain":
         uc = cfg["uc"]
         a = Array(m.array("a", shape, dt), unit=ua)
